@@ -630,7 +630,7 @@ fn workload(coord: &DistributedTxCoordinator, ch: &mut Chain, rng: &mut Rng, epo
     for _ in 0..steps {
         let w_begin = if begun < max_new { 5 } else { 0 };
         let have = !ch.txs.is_empty();
-        let op = rng.weighted(&[w_begin, if have { 14 } else { 0 }, if have { 4 } else { 0 }, if have { 3 } else { 0 }, 1, 1, if have { 1 } else { 0 }, 1]);
+        let op = rng.weighted(&[w_begin, if have { 14 } else { 0 }, if have { 4 } else { 0 }, if have { 3 } else { 0 }, 1, 1, if have { 1 } else { 0 }, 2]);
         match op {
             0 => {
                 let mut shards = vec![0usize, 1, 2];
@@ -715,9 +715,42 @@ fn workload(coord: &DistributedTxCoordinator, ch: &mut Chain, rng: &mut Rng, epo
                 rep.count("op:abort-broadcast", 1);
             }
             _ => {
-                let _ = coord.get_pending_decisions();
-                let _ = coord.recover();
-                rep.count("op:recover", 1);
+                // a further recovery call on the running coordinator ("every following sequence of
+                // recovery calls ... and further transactions"). A transaction that is known and
+                // holds key locks before the call may be kept or forgotten by it, but a forgotten
+                // one must not leave its locks behind.
+                let holding: Vec<u64> = ch
+                    .txs
+                    .iter()
+                    .map(|t| t.id)
+                    .filter(|id| coord.get(*id).is_some() && coord.lock_manager().lock_count_for_transaction(*id) > 0)
+                    .collect();
+                let which = rng.below(3);
+                let name = ["recover_from_wal", "recover", "recover_from_wal+recover"][which];
+                if which != 1 {
+                    rep.count("op:recover_from_wal-again", 1);
+                    if let Err(e) = coord.recover_from_wal() {
+                        out.push(Found { sig: "recovery-error".into(), detail: format!("recover_from_wal on the running coordinator failed: {}", e) });
+                    }
+                }
+                if which != 0 {
+                    let _ = coord.get_pending_decisions();
+                    let _ = coord.recover();
+                    rep.count("op:recover", 1);
+                }
+                rep.count("live_lock_holders_across_recovery_calls", holding.len() as u64);
+                for tx in holding {
+                    let left = coord.lock_manager().keys_for_transaction(tx);
+                    if coord.get(tx).is_none() && !left.is_empty() {
+                        out.push(Found {
+                            sig: format!("recovery-call-forgot-live-tx-and-left-its-locks:{}", name),
+                            detail: format!(
+                                "{} was pending and held key locks {:?}; after {}() on the running coordinator it is unknown (votes/commit/abort answer not-found) but the locks are still held",
+                                ch.names.n(tx), left, name
+                            ),
+                        });
+                    }
+                }
             }
         }
     }
@@ -1127,6 +1160,7 @@ fn main() {
                 ("hostile:abort-after-logged-commit", 200),
                 ("hostile:commit-after-logged-abort", 500),
                 ("chain_crashes_with_torn_tail", 30),
+                ("live_lock_holders_across_recovery_calls", 100),
             ]
         },
         exhaustive: false,
